@@ -220,10 +220,13 @@ impl<'a> G<'a> {
         for _ in 0..nrows {
             let mut cellsv = Vec::new();
             let mut c = 0usize;
+            // (sometimes a row of code listings: every cell empty or a <pre> whose text ends in a line feed)
+            let listing_row = f.pre && self.r.chance(1, 10);
             while c < ncols {
                 let span = if f.colspan && !(empty_first && c == 0) && self.r.chance(1, 4) { 1 + self.r.below((ncols - c) as u64) as usize } else { 1 };
                 let kids = match self.r.below(8) {
                     _ if empty_first && c == 0 => vec![],
+                    _ if listing_row => if self.r.chance(1, 3) { vec![] } else { let t = self.token(); vec![N::el("pre", vec![N::T(format!("{}\n", t))])] },
                     0 => vec![],
                     1 | 2 | 3 => vec![N::T(self.token())],
                     4 if f.nested_tables && self.in_table < 2 && depth < f.maxdepth => vec![self.table(depth + 1)],
